@@ -30,7 +30,13 @@ they are on disk). goderive is run twice in a row; both invocations are compared
 package's functions; an unnamed package gets no file), the second run must leave the bytes of the first, and the result
 of the first must type-check (`go vet ./...`).
 
-Third family (moved.json): a module of two packages (. and ./lib), each with a chain; v1 is generated with `goderive
+About 45 % of these invocations are HISTORIES (m["v1"]): in version 1 the first package declares `Out` with an explicit
+type of another element type and has no derive calls; version 1 is generated (run 0), the package is edited, and the
+compared runs start from the files of run 0 — often with every call of an importing package waiting in its first pass,
+so that this pass must remove the stale file before the reload. Such a run is also compared byte for byte with a run
+from scratch in a fresh module (allowed to differ only where the model predicts exactly both outcomes: F7).
+
+Third family (moved.json; half of them with ./lib keeping a source file without derive calls): a module of two packages (. and ./lib), each with a chain; v1 is generated with `goderive
 ./...`; in v2 lib's declarations and calls have moved into the root package and lib's only source file is deleted, its
 derived.gen.go stays behind; `goderive ./...` again. The model says `regen [] old = removed` for ./lib
 (`regen_removes_when_empty`) and what the root package leaves (op `regen` with the v1 file as the old one); checked on the
@@ -369,9 +375,26 @@ def run_module(binp, d, m):
 
 
 def prepare_multi(m, binp, root):
-    """every derived.gen.go absent -> run 1; run 2 over what run 1 left"""
+    """every derived.gen.go absent -> run 1; run 2 over what run 1 left.
+    A history (m["v1"]): version 1 (the first package declares Out with an explicit type, no derive calls) is generated
+    first (run 0); the first package's files are then replaced: run 1 starts from the files of run 0; the same version
+    is also generated from scratch in a fresh module."""
     d = os.path.join(root, m["id"])
-    write_module(d, m)
+    r0 = rs = None
+    if m.get("v1"):
+        write_module(d, m)
+        rs = run_module(binp, d, m)
+        m1 = dict(m, packages=[dict(p, files=m["v1"][p["name"]]) if p["name"] in m["v1"] else p for p in m["packages"]])
+        write_module(d, m1)
+        r0 = run_module(binp, d, m1)
+        for p in m["packages"]:
+            if p["name"] in m["v1"]:
+                for name in m["v1"][p["name"]]:
+                    os.remove(os.path.join(d, p["name"], name))
+                for name, src in p["files"].items():
+                    open(os.path.join(d, p["name"], name), "w").write(src)
+    else:
+        write_module(d, m)
     r1 = run_module(binp, d, m)
     r2 = run_module(binp, d, m)
     vet = None
@@ -380,7 +403,7 @@ def prepare_multi(m, binp, root):
         p = common.sh(["go", "vet", "./..."], cwd=d, timeout=600)
         vet = (p.returncode == 0, (p.stderr.strip().splitlines() or [""])[-1][:200])
     shutil.rmtree(d, ignore_errors=True)
-    return r1, r2, vet
+    return r1, r2, vet, r0, rs
 
 
 def order_line(m):
@@ -406,15 +429,18 @@ def qualified_sigs(pkg, data):
     return [(pkg + "." + n, r, ps) for n, r, ps in parse_sigs3(data or "")]
 
 
-def run_multi(rep, scs, binp, root, table, num, pool, drvbin, stats):
+def run_multi(rep, scs, binp, root, table, num, pool, drvbin, stats, known_f7=True):
     """The multi-package family: order by G/Order (op genorder), every package by G/Reload (op regenall), against two
     consecutive runs of the real goderive starting with every derived.gen.go absent."""
     runs = list(pool.map(lambda m: prepare_multi(m, binp, root), scs))
     # closure of the plugin table over all packages of a scenario, with the files of run 1 as the old files of run 2
     jobs = []
-    for m, (r1, r2, vet) in zip(scs, runs):
+    for m, (r1, r2, vet, r0, rs) in zip(scs, runs):
         calls = [c for p in m["packages"] for c in p["calls"]]
         olds = [(n, r) for p in m["packages"] for n, r, _ in qualified_sigs(p["name"], r1[1][p["name"]])]
+        if r0 is not None:
+            olds += [(n, r) for p in m["packages"] for n, r, _ in qualified_sigs(p["name"], r0[1][p["name"]])]
+            olds = sorted(set(olds))
         jobs.append((calls, olds))
     for _ in range(12):
         missing = set()
@@ -432,7 +458,7 @@ def run_multi(rep, scs, binp, root, table, num, pool, drvbin, stats):
     if drv.returncode != 0 or len(oans) != len(olines):
         raise common.CheckError("model driver failed on the genorder ops of the regen tie: %s" % drv.stderr[-500:])
     lines, meta = [], []
-    for i, (m, (r1, r2, vet), (calls, olds), oa) in enumerate(zip(scs, runs, jobs, oans)):
+    for i, (m, (r1, r2, vet, r0, rs), (calls, olds), oa) in enumerate(zip(scs, runs, jobs, oans)):
         mo = re.match(r"^%d model=(.*)$" % (i + 1), oa)
         if not mo:
             raise common.CheckError("model driver rejected genorder op of regen scenario %s: %s" % (m["id"], oa[:200]))
@@ -444,13 +470,13 @@ def run_multi(rep, scs, binp, root, table, num, pool, drvbin, stats):
             names[nm] = len(names)
         for t in sorted({c["text"] for c in calls}):
             texts[t] = len(texts)
-        for which, start in (("run1", {}), ("run2", r1[1])):
+        for which, start in ((("scratch", {}),) if r0 is not None else ()) + (("run1", r0[1] if r0 is not None else {}), ("run2", r1[1])):
             parts, odd = [], []
             for pn in order:
                 po = [(n, r) for n, r, _ in qualified_sigs(pn, start.get(pn))]
                 calls_part, _, old_part, _ = encode(pk[pn]["calls"], po, table, num, names, texts, parts=True)
                 parts.append("(%d %s %s)" % (pid[pn], calls_part, old_part))
-            _, rows_part, _, odd = encode(calls, olds if which == "run2" else [], table, num, names, texts, parts=True)
+            _, rows_part, _, odd = encode(calls, olds, table, num, names, texts, parts=True)
             if odd:
                 stats["skipped_odd_rows"] += 1
                 continue
@@ -468,15 +494,18 @@ def run_multi(rep, scs, binp, root, table, num, pool, drvbin, stats):
             ms["features"][ft] = ms["features"].get(ft, 0) + 1
         ms["packages"][str(len(m["packages"]))] = ms["packages"].get(str(len(m["packages"])), 0) + 1
     flagged = set()
+    f7hist = set()
+    scr = {}          # history scenario -> (model answer for the run from scratch, its disagreements)
+    ms.update({"histories": sum(1 for m in scs if m.get("v1")), "history_as_from_scratch": 0, "history_known_F7_predicted": 0})
     for k, ((i, which, order, names, pid), ans) in enumerate(zip(meta, answers), 1):
-        m, (r1, r2, vet) = scs[i], runs[i]
+        m, (r1, r2, vet, r0, rs) = scs[i], runs[i]
         mm = re.match(r"^%d model=(.*)$" % k, ans)
         if not mm:
             raise common.CheckError("model driver rejected regenall op %d (%s %s): %s" % (k, m["id"], which, ans[:300]))
-        real = r1 if which == "run1" else r2
+        real = {"run1": r1, "run2": r2, "scratch": rs}[which]
         replay = {"scenario": m, "which": which, "op": lines[k - 1], "model": ans, "tie": "regen", "order": order}
         ms["invocations_compared"] += 1
-        if which == "run1" and order != sorted(order):
+        if which == ("scratch" if r0 is not None else "run1") and order != sorted(order):
             ms["order_differs_from_path_order"] += 1
         if real[3]:
             rep.violation("goderive crashed or hung on regen scenario %s (%s)" % (m["id"], which), replay, True)
@@ -502,12 +531,29 @@ def run_multi(rep, scs, binp, root, table, num, pool, drvbin, stats):
         for p in m["packages"]:
             if not p["named"] and real[1][p["name"]] is not None:
                 diffs.append("package %s is not named and got a derived.gen.go" % p["name"])
+        if which == "scratch":
+            scr[i] = (mm.group(1), diffs)
         # the property itself: the second run, over the files of the first, changes nothing; the result type-checks
         why = None
+        if which == "run1" and r0 is not None and i in scr and i not in flagged:
+            # a history: what the run over the old files leaves is what the run from scratch leaves (bytes, per package),
+            # unless the model predicts exactly both outcomes (then a stale signature flows: F7)
+            same = r1[0] == rs[0] and (r1[0] != "ok" or r1[1] == rs[1])
+            if same:
+                ms["history_as_from_scratch"] += 1
+            elif not diffs and not scr[i][1] and mm.group(1) != scr[i][0] and known_f7:
+                # (what such a run leaves is healed by the next run: the second-run clause below is part of F7 here;
+                # the second run is still compared with the model)
+                ms["history_known_F7_predicted"] += 1
+                f7hist.add(i)
+            else:
+                ch = [pn for pn in r1[1] if r1[1][pn] != rs[1][pn]]
+                why = ("after the history (version 1 generated, first package edited, one run) %s; from scratch: %s" % (
+                    "the run ends with %s" % r1[0] if r1[0] != rs[0] else "derived.gen.go of %s differs from the from-scratch one" % ", ".join(ch), rs[0]))
         if which == "run1" and r1[0] != "ok" and r2[0] == "ok" and mkind == "ok" and i not in flagged:
             why = ("the first run fails (%s), the second run, over the files the failed run left behind, succeeds: "
                    "the outcome depends on the old files" % r1[0])
-        if which == "run1" and r1[0] == "ok" and i not in flagged:
+        if which == "run1" and r1[0] == "ok" and i not in flagged and not why and i not in f7hist:
             if r2[0] != "ok" or r2[1] != r1[1]:
                 ch = [pn for pn in r1[1] if r1[1][pn] != r2[1][pn]]
                 why = ("the second run, over the files the first run left, %s: one run did not suffice" % (
@@ -519,8 +565,9 @@ def run_multi(rep, scs, binp, root, table, num, pool, drvbin, stats):
                 ms["type_checked"] += 1 if vet else 0
         if why:
             flagged.add(i)
-            rep.violation("regen scenario %s (goderive %s, every derived.gen.go absent at the start; generation order by G/Order: %s): %s%s" % (
-                m["id"], " ".join(m["args"]), " ".join(order), why, ("; " + "; ".join(diffs)) if diffs else ""),
+            rep.violation("regen scenario %s (goderive %s, %s; generation order by G/Order: %s): %s%s" % (
+                m["id"], " ".join(m["args"]), "every derived.gen.go absent at the start" if r0 is None else "the files of an earlier version present",
+                " ".join(order), why, ("; " + "; ".join(diffs)) if diffs else ""),
                 dict(replay, run1=r1[0], run2=r2[0], stderr=real[2]), True)
         elif diffs and i not in flagged:
             flagged.add(i)
@@ -529,7 +576,7 @@ def run_multi(rep, scs, binp, root, table, num, pool, drvbin, stats):
         if len(rep.violations) > 10:
             break
     stats["model_runs_compared"] += ms["invocations_compared"]
-    stats["goderive_runs"] += 2 * len(scs)
+    stats["goderive_runs"] += 2 * len(scs) + 2 * ms["histories"]
 
 
 # ---------------------------------------------------------------- a package left with nothing but its derived.gen.go
@@ -559,6 +606,8 @@ def prepare_moved(mv, binp, root):
     r1 = run()
     for n in mv["v1_lib"]["files"]:
         os.remove(os.path.join(d, "lib", n))
+    for n, src in (mv.get("v2_lib") or {}).items():
+        open(os.path.join(d, "lib", n), "w").write(src)      # lib keeps a source file, without derive calls
     for n, src in mv["v2_root"]["files"].items():
         open(os.path.join(d, n), "w").write(src)
     r2 = run()
@@ -632,7 +681,8 @@ def run_moved(rep, mvs, binp, root, table, num, pool, drvbin, stats):
         if m_lib != "ok:none":
             raise common.CheckError("model: regen on no calls is not `removed`: %s" % m_lib)
         if r2[0] == "ok" and r2[1]["lib"] is not None:
-            bad.append("no derive call remains in ./lib (every source file is gone), but lib/derived.gen.go is still there after goderive ./... "
+            bad.append("no derive call remains in ./lib (%s), but lib/derived.gen.go is still there after goderive ./... " % (
+                       "its call moved to the root package" if mv.get("v2_lib") else "every source file is gone") +
                        "(model: removed)")
         else:
             st["lib_file_removed"] += 1
@@ -828,7 +878,11 @@ def run(rep, n=None):
         multis = json.load(open(os.path.join(root, "multi.json")))
         if multis:
             with ThreadPoolExecutor(max_workers=12) as pool:
-                run_multi(rep, multis, binp, root, table, num, pool, drvbin, stats)
+                run_multi(rep, multis, binp, root, table, num, pool, drvbin, stats,
+                          known_f7=bool(known.get("F7") and known["F7"]["status"] == "known"))
+            if stats["multi"].get("history_known_F7_predicted"):
+                f7 += stats["multi"]["history_known_F7_predicted"]
+                f7_example = f7_example or "a multi-package history"
             stats["probe_rows"] = len(table.rows)
         mvs = json.load(open(os.path.join(root, "moved.json"))) if os.path.exists(os.path.join(root, "moved.json")) else []
         if mvs:
